@@ -39,7 +39,11 @@ func main() {
 			if i%3 == 2 {
 				cfg = prog.Cfg{Kind: "bigmachine", Parallelism: 4, Procs: 2}
 			}
-			descs = append(descs, Desc{cfg, prog.Gen(r, prog.DefaultGen())})
+			if i%8 == 7 {
+				descs = append(descs, Desc{cfg, prog.GenDirected(r, i/8)})
+			} else {
+				descs = append(descs, Desc{cfg, prog.Gen(r, prog.DefaultGen())})
+			}
 		}
 	}
 	sessions := map[string]*prog.Sess{}
